@@ -273,13 +273,16 @@ pub fn code_byte(cpu: &Cpu, off: usize) -> u8 {
     }
 }
 
-/// True iff something outside the declared windows was written (Kani: also read).
+/// True iff something outside the declared windows was written.  A *read* outside the footprint is
+/// not an observable effect by itself: it returns an arbitrary pre-drawn byte, so a load from the wrong
+/// place shows up as a wrong value, and an over-read that runs off a mapped region as an error -- both
+/// reproduce on the native build, which a bare "stray read" flag would not.
 #[allow(static_mut_refs)]
 pub fn stray(cpu: &Cpu) -> bool {
     #[cfg(kani)]
     unsafe {
         let _ = cpu;
-        FP.stray_read || FP.stray_write || FP.code_write
+        FP.stray_write || FP.code_write
     }
     #[cfg(not(kani))]
     unsafe {
